@@ -55,7 +55,7 @@ class Recording:
 # ------------------------------------------------------------------ pattern generators
 ATOMS = ['a', 'b', 'ab', '[ab]', '.', '\\d', 'x?', 'a*', '(?:ab)+', '', '\\b', '^', '$', '\\n', 'c', '[^a]', 'a|b', '\\w+', ' ',
          'a{2}', '(?=b)', '(?<!a)', 'é', '.*?', '\\s', '(?=(b))', '(?=(?P<la>a)(b)?)', '\\b(?=(\\w+))', '(?<=(a))', '(?=(x?))', 'A', '[A-Z]b',
-         '\\\\', "\\\\'", "'", '"', '\\\\(', "it's", '\\\\"', '\\A', '\\Z', '\\B', 'a??', '(?:\\b|ab)', 'a|ab', '\\d+?']
+         '\\\\', "\\\\'", "'", '"', '\\\\(', "it's", '\\\\"', '\\A', '\\Z', '\\B', 'a??', '(?:\\b|ab)', 'a|ab', '\\d+?', '(?<=(?P<lb>a))b', '(?<=(?P<lb2>.))', '(?=(?P<la2>b))a?']
 
 
 def gen_pattern(rnd, sequential=False):
@@ -408,6 +408,9 @@ def verify_c14(M, p, c, t, ctx, tmpdir, serial):
             M.call(p, 'get_matches_with_context', (t, nl, nr), {}, exp, ctx, 'C14', law='window')
     M.call(p, 'iterate_matches_with_context', (t, 1, 2), {}, [t[max(m.start() - 1, 0):min(m.end() + 2, L)] for m in ms], ctx, 'C14', law='window')
     M.call(p, 'get_matches_with_context', (t,), {}, [t[max(m.start() - 5, 0):min(m.end() + 5, L)] for m in ms], ctx, 'C14', law='window-default')
+    M.call(p, 'iterate_matches_with_context', (t,), {}, [t[max(m.start() - 5, 0):min(m.end() + 5, L)] for m in ms], ctx, 'C14', law='window-default')
+    M.call(p, 'iterate_matches_with_context', (t,), {'n_right': 0}, [t[max(m.start() - 5, 0):m.end()] for m in ms], ctx, 'C14', law='window-default')
+    M.call(p, 'get_matches_with_context', (t,), {'n_left': 0}, [t[m.start():min(m.end() + 5, L)] for m in ms], ctx, 'C14', law='window-default')
     for nl, nr, exc in BADWIN:
         M.call(p, 'get_matches_with_context', (t, nl, nr), {}, ExpectExc(exc), ctx, 'C14', law='bad-window')
         M.call(p, 'iterate_matches_with_context', (t, nl, nr), {}, ExpectExc(exc), ctx, 'C14', law='bad-window')
